@@ -224,6 +224,19 @@ fn parser_precedence(expression: &expr::E<()>) -> i32 {
   }
 }
 
+/// Whether the printed form of the expression ends with `.name` without explicit type arguments.
+/// A `<` directly after such text is parsed as the start of type arguments, not as less-than.
+fn ends_with_bare_member_access(expression: &expr::E<()>) -> bool {
+  match expression {
+    expr::E::FieldAccess(e) => e.explicit_type_arguments.is_none(),
+    expr::E::MethodAccess(e) => e.explicit_type_arguments.is_none(),
+    expr::E::Unary(e) => ends_with_bare_member_access(&e.argument),
+    expr::E::Binary(e) => ends_with_bare_member_access(&e.e2),
+    expr::E::Lambda(e) => ends_with_bare_member_access(&e.body),
+    _ => false,
+  }
+}
+
 fn create_doc_for_subexpression_considering_precedence_level(
   heap: &Heap,
   comment_store: &CommentStore,
@@ -657,6 +670,21 @@ fn create_doc_without_preceding_comment(
         Document::Text(e.operator.kind_str()),
         Document::Text(" "),
       ]);
+      if e.operator == expr::BinaryOperator::LT && ends_with_bare_member_access(&e.e1) {
+        // `a.b < c` does not parse (`<` starts type arguments after a member name): keep `(a.b) < c`.
+        return Document::concat(vec![
+          parenthesis_surrounded_doc(create_doc(heap, comment_store, &e.e1)),
+          operator_preceding_comments_docs,
+          operator_doc,
+          create_doc_for_subexpression_considering_precedence_level(
+            heap,
+            comment_store,
+            expression,
+            &e.e2,
+            true,
+          ),
+        ]);
+      }
       if parser_precedence(&e.e1) == parser_precedence(expression) {
         // Since we are doing left to right evaluation, this is safe.
         return Document::concat(vec![
